@@ -272,18 +272,36 @@ pub fn judge_semantic_for(case: &Case, ctx: &mut Ctx, prop: &str) -> Verdict {
     let mut results = results;
     if let Some(un) = case.extra["unordered_leaves"].as_array() {
         let un: Vec<String> = un.iter().filter_map(|v| v.as_str().map(|s| s.to_string())).collect();
+        let multi: Vec<String> = case.extra["multi_leaves"]
+            .as_array()
+            .map(|a| a.iter().filter_map(|v| v.as_str().map(|s| s.to_string())).collect())
+            .unwrap_or_default();
         let split = |t: &Value| -> Value {
-            let mut ordered = vec![];
+            let mut ordered: Vec<Value> = vec![];
             let mut unordered = vec![];
             // unordered leaves are counted per slot-invocation segment
             let mut seg = 0usize;
+            let mut run: (String, usize) = (String::new(), 0);
             for e in t.as_array().cloned().unwrap_or_default() {
                 let s = e.as_str().unwrap_or("").to_string();
+                if !multi.contains(&s) {
+                    run = (String::new(), 0);
+                }
                 if s.starts_with("slot:") {
                     seg += 1;
                 }
                 if un.contains(&s) {
                     unordered.push(format!("{seg}:{s}"));
+                } else if multi.contains(&s) {
+                    // up to three consecutive evaluations of a computed v-model argument
+                    // (once per generated prop key) count as one; a 4th is kept and will
+                    // differ from the reference
+                    if run.0 == s && run.1 < 3 {
+                        run.1 += 1;
+                        continue;
+                    }
+                    run = (s.clone(), 1);
+                    ordered.push(e);
                 } else {
                     ordered.push(e);
                 }
@@ -364,6 +382,7 @@ pub struct SemCase {
     pub opts: Opts,
     pub value_kinds: Vec<(String, &'static str)>,
     pub unordered_leaves: Vec<String>,
+    pub multi_leaves: Vec<String>,
 }
 
 /// Build a semantic case with `n` exported JSX statements.
@@ -399,5 +418,6 @@ pub fn sem_case(
         opts,
         value_kinds: g.value_kinds.clone(),
         unordered_leaves: g.unordered_leaves.clone(),
+        multi_leaves: g.multi_leaves.clone(),
     }
 }
